@@ -39,7 +39,7 @@ RULE = ('case = (reception mode, transfer syntax, client/server maximum, source 
         'repeat pattern); distinct = same tuple; non-trivial = every case transmits at least one data set')
 ASSUMPTIONS = ['loopback TCP is reliable; library time-outs (5 s) are re-run alone before they count']
 REQUIRED = ['oracle.content-equal', 'oracle.status-returned', 'oracle.directory-conservation',
-            'monitor.truncating-open']
+            'monitor.truncating-open', 'oracle.transfer-survives-a-busy-provider']
 
 N = {'quick': 320, 'thorough': 6000}
 TS = ['1.2.840.10008.1.2', '1.2.840.10008.1.2.1', '1.2.840.10008.1.2.2']
@@ -77,11 +77,16 @@ def exhaustive(tier):
 
 
 def plan(tier, seed):
-    return [{'lo': p[0], 'hi': p[-1] + 1} for p in chunked(range(N[tier]), 16) if p]
+    return [{'kind': 'stall', 'round': k} for k in range(1 if tier == 'quick' else 3)] + \
+        [{'lo': p[0], 'hi': p[-1] + 1} for p in chunked(range(N[tier]), 16) if p]
 
 
 def run_shard(spec, tier, seed):
     res = Result()
+    if spec.get('kind') == 'stall':
+        from . import c15stall
+        c15stall.run_round(res, {'stall': True, 'round': spec['round'], 'seed': seed})
+        return res
     install_hook()
     sigs = set()
     for i in range(spec['lo'], spec['hi']):
@@ -92,6 +97,10 @@ def run_shard(spec, tier, seed):
 
 def replay(case):
     res = Result()
+    if case.get('stall'):
+        from . import c15stall
+        c15stall.run_round(res, case)
+        return res
     install_hook()
     run_case(res, case, set())
     return res
@@ -250,8 +259,24 @@ def run_case(res, case, sigs, attempt=0):
             if lazy and not registered:
                 registered.append(True)
                 self.add_scp(sopclass.storage_scp)
-    Server = type('Server', (tcpnet.TapServerMixin, base), {'on_receive_store': handler,
-                                                             'on_association_request': on_association_request})
+    members = {'on_receive_store': handler, 'on_association_request': on_association_request}
+    r_file = rng(seed, 'c15-get-file', i)
+    if mode == 'tempfile' and r_file.random() < 0.4:
+        # the documented override of get_file(): instances are kept in memory (a file-like object
+        # without an OS file behind it), after a record header of the application's own
+        import io
+        pad = r_file.choice([0, 0, 512])
+        res.count('sim.get-file-returns-bytesio')
+
+        def get_file(self, context, command_set):
+            tmp, start = base.get_file(self, context, command_set)
+            tmp.seek(start)
+            buf = io.BytesIO(b'R' * pad + tmp.read())
+            tmp.close()
+            buf.seek(0, 2)
+            return buf, pad
+        members['get_file'] = get_file
+    Server = type('Server', (tcpnet.TapServerMixin, base), members)
     error = None
     returned = []
     _watch['dirs'].append(storage_dir)
